@@ -413,9 +413,11 @@ Definition sub_spent (a n : N) (p : pool) : res pool :=
   | Some s => Ok (set_spent (aset (p_spent p) a (sub256 s n)) p)
   | None => Err 1
   end.
+(* p.spent[addr] = p.spent[addr] + cost.  A uint256 overflow of the total is outside the
+   model (Err 3): every theorem is about runs without it. *)
 Definition add_spent (a n : N) (p : pool) : res pool :=
   match aget (p_spent p) a with
-  | Some s => Ok (set_spent (aset (p_spent p) a (wrap256 (s + n))) p)
+  | Some s => if s + n <? two256 then Ok (set_spent (aset (p_spent p) a (s + n)) p) else Err 3
   | None => Err 1
   end.
 (* p.store.Delete(id), error only logged *)
@@ -964,9 +966,11 @@ Definition reinject (a h : N) (p : pool) : res pool :=
           let p := set_store b p in
           let m := mkMeta t id 0 0 0 in
           do p1 <- (match aget (p_index p) a with
-                    | None => Ok (set_heap (p_heap p ++ [a])     (* p.evict.Push: no sift *)
-                                    (set_spent (aset (p_spent p) a (t_cost t))
-                                       (set_index (aset (p_index p) a [m]) p)))
+                    | None => if t_cost t <? two256 then
+                                Ok (set_heap (p_heap p ++ [a])     (* p.evict.Push: no sift *)
+                                      (set_spent (aset (p_spent p) a (t_cost t))
+                                         (set_index (aset (p_index p) a [m]) p)))
+                              else Err 3                          (* costCap is a uint256 *)
                     | Some l => add_spent a (t_cost t) (set_index (aset (p_index p) a (l ++ [m])) p)
                     end) ;
           Ok (add_stored (t_size t) (track m p1))
